@@ -179,12 +179,22 @@ Print Assumptions C05_error_line_col.
         in these three cases whatever follows the token is irrelevant
         ([C05_fault_closing_any_suffix_partial]: the left context and the items
         before the token are well formed, the rest of the input is arbitrary);
-      - [{] inserted at top level ([C05_fault_opening_partial]): the group
-        swallows the rest, error "closing delimiter not found" located right
-        after the inserted brace, raised when the input ends;
-      - [\(], [\[], [$] inserted at top level in front of items that are also a
+      - [{], [\begin{x}] (an environment without arguments, known to the context
+        or covered by its fallback) inserted at top level
+        ([C05_fault_opening_partial]): the new construct swallows the rest, error
+        "closing delimiter not found" (6) located right after the inserted
+        delimiter, raised when the input ends; [\(], [\[], [$] (and [\begin{x}]
+        with a math-mode body) likewise, in front of items that are also a
         well-formed formula body (no formula directly among them) and, for [$],
-        not directly in front of another [$]: same error.
+        not directly in front of another [$];
+      - the same opening delimiters inserted in a NESTED body, at any depth
+        ([C05_fault_opening_nested_partial]), when the closing delimiter of the
+        enclosing construct is not also the closing delimiter of the new one
+        ([{] in a [\( \)] or [\[ \]] formula; [$], [\(], [\[] in a group or macro
+        argument outside math mode; [\begin{x}] in a group, a macro argument, a
+        [\( \)] or [\[ \]] formula): the new construct runs into that closing
+        delimiter and its collector rejects it THERE (unexpected closing brace /
+        closing math delimiter);
       - [}] inserted in a group, itself in a chain of directly nested groups
         that stands in the top-level body or in a formula body
         ([C05_fault_closing_brace_in_groups_partial]): every group of the chain
@@ -192,10 +202,12 @@ Print Assumptions C05_error_line_col.
         the closing brace of the outermost group of the chain.
     NOT covered (differential testing only): [}] inserted in a macro argument
     (it closes the argument early; what follows is read as the next argument or
-    in the enclosing body), [\)] / [\]] inside a formula of the same kind, [$] used as a
-    closing delimiter, an opening delimiter inserted inside a nested body or in
-    front of items that contain a formula, [\begin{x}], insertion points inside an
-    item (between the tokens of a macro call, inside whitespace), the grammar
+    in the enclosing body), [\)] / [\]] inside a formula of the same kind, [$]
+    used as a closing delimiter, [{] inserted in a group or macro argument (the
+    enclosing closing brace closes it), an opening delimiter inserted in a
+    [$ $] formula, a math delimiter or math-body environment in front of items
+    that contain a formula, environments with arguments, insertion points inside
+    an item (between the tokens of a macro call, inside whitespace), the grammar
     beyond the core one. *)
 From PLV Require Import Doc.DocGrammar Proofs.RoundTripTok Proofs.FaultTok Proofs.FaultDoc Proofs.FaultPath
                         Proofs.FaultClose Proofs.FaultOpen Proofs.FaultZip Proofs.FaultInject.
@@ -239,20 +251,67 @@ Theorem C05_fault_closing_any_suffix_partial : forall cx path l1 fws c g,
     /\ pe_pos e = Some q /\ pe_what e = stray_what c.
 Proof. exact fault_closing. Qed.
 
-(** ** An unmatched opening delimiter at top level: [open_text op] is [{]
-    ([OBrace]) or [$], [\(], [\[] ([OMath k]).  [open_side]: nothing for [{];
-    for a math delimiter, the items after it are also well formed as a formula
-    body and [$] is not directly followed by [$].  The strict parse fails when
-    the input ends (reader at [length s]) with the general-nodes parser's error
-    6 ("stop condition not met": the closing delimiter was not found), located
-    right after the inserted delimiter. *)
+(** ** An unmatched opening delimiter: [open_text op] is [{] ([OBrace]), [$],
+    [\(], [\[] ([OMath k]) or [\begin{x}] ([OBegin x]).  [open_side cx hs op l2
+    fol] (state [hs] of the body it is inserted in, items [l2] after it, then
+    [fol]): [open_wf] — a math delimiter stands outside math mode; the
+    environment name is valid, the context knows the environment (or has a
+    fallback) and it takes no arguments —; the items [l2] are well formed also in
+    the state of the new construct's body (automatic when that is [hs]: [{], an
+    environment whose body is not in math mode); [$] is not directly followed by
+    [$].
+
+    At top level the strict parse fails when the input ends (reader at
+    [length s]) with the general-nodes parser's error 6 ("stop condition not
+    met": the closing delimiter was not found), located right after the
+    inserted delimiter. *)
 Theorem C05_fault_opening_partial : forall cx l1 l2 dtr op,
-  ok_doc cx {| d_items := l1 ++ l2; d_trail := dtr |} = true -> open_side cx op l2 dtr ->
+  ok_doc cx {| d_items := l1 ++ l2; d_trail := dtr |} = true -> open_side cx (walker_state cx) op l2 dtr ->
   let s := unparse_items l1 ++ open_text op ++ unparse_items l2 ++ dtr in
   exists e,
     parse_top s false cx (walker_state cx) = PErr e (length s)
     /\ pe_pos e = Some (length (unparse_items l1) + length (open_text op)) /\ pe_what e = 6.
 Proof. exact fault_opening_doc. Qed.
+
+(** In a nested body (path [path ++ [f]], innermost construct [f]) the new
+    construct reads on to the closing delimiter [c] of [f] ([closer_of f = Some
+    c]: [}] for a group or macro argument, [\)], [\]]; none for [$ $]); if that is
+    not its own closing delimiter ([stray_ok]) its collector rejects it: the
+    error is located AT the closing delimiter of [f] (after the rest [l2] of the
+    body and the whitespace [frame_tr f] in front of it), with the raise site of
+    that token. *)
+Theorem C05_fault_opening_nested_partial : forall cx path f l1 l2 dtr op c,
+  let hs := lp_state cx (walker_state cx) (lefts (path ++ [f])) in
+  ok_doc cx (zdoc (path ++ [f]) l1 l2 dtr) = true -> closer_of f = Some c ->
+  open_side cx hs op l2 (frame_tr f ++ stray_text c) ->
+  stray_ok (open_opts (open_state cx hs op) op) c ->
+  let q := length (zleft (path ++ [f]) l1) + length (open_text op) + length (unparse_items l2) + length (frame_tr f) in
+  exists e,
+    parse_top (zleft (path ++ [f]) l1 ++ open_text op ++ zright (path ++ [f]) l2 dtr) false cx (walker_state cx)
+    = PErr e (q + length (stray_text c))
+    /\ pe_pos e = Some q /\ pe_what e = stray_what c.
+Proof. exact fault_open_nested_doc. Qed.
+
+(** the general form: any left context, then well-formed items, the opening
+    delimiter, well-formed items, a closing token the new construct does not
+    accept, then ANYTHING *)
+Theorem C05_fault_opening_any_suffix_partial : forall cx path l1 fws op l2 tr c g,
+  let ps0 := walker_state cx in
+  let hs := lp_state cx ps0 path in
+  ok_lpath cx ps0 path (hd_error (unparse_items l1 ++ fws ++ open_text op)) = true ->
+  ok_items cx hs l1 (hd_error (fws ++ open_text op)) = true -> ws_ok fws = true ->
+  open_wf cx hs op ->
+  ok_items cx (open_state cx hs op) l2 (hd_error (tr ++ stray_text c)) = true -> ws_ok tr = true ->
+  stray_wf c -> stray_ok (open_opts (open_state cx hs op) op) c ->
+  (op = OMath MDollar -> hd_not (fun c => N.eqb c 36) (unparse_items l2 ++ tr ++ stray_text c ++ g)) ->
+  let q := length (lp_text path) + length (unparse_items l1) + length fws + length (open_text op)
+           + length (unparse_items l2) + length tr in
+  exists e,
+    parse_top (lp_text path ++ unparse_items l1 ++ fws ++ open_text op ++ unparse_items l2 ++ tr ++ stray_text c ++ g)
+              false cx ps0
+    = PErr e (q + length (stray_text c))
+    /\ pe_pos e = Some q /\ pe_what e = stray_what c.
+Proof. exact fault_open_nested. Qed.
 
 (** ** A closing brace inserted in a group closes it early; the group's own
     closing brace then closes the enclosing group, and so on outwards through
@@ -317,24 +376,54 @@ Example C05_fault_closing_brace_instance :
             /\ pe_pos e = Some 7%nat /\ pe_what e = 2%nat.
 Proof. vm_compute. repeat split. eexists. repeat split. Qed.
 
-(** [ab {c} $x$ d]: an opening brace / [\(] inserted after [ab]; for [\(] the
-    side condition fails on the rest [ {c} $x$ d] (it contains a formula) but
-    holds in front of [ {c} d] *)
+(** [ab {c} $x$ d]: an opening brace / [\begin{zq}] / [\(] inserted after [ab];
+    for [\(] the side condition fails on the rest [ {c} $x$ d] (it contains a
+    formula) but holds in front of [ {c} d] *)
 Example C05_fault_opening_nonvacuous :
   let l1 := [Text [] [97;98]] in
   let l2 := [Grp [32] [Text [] [99]] []; Math [32] MDollar [Text [] [120]] []; Text [32] [100]] in
   let l2' := [Grp [32] [Text [] [99]] []; Text [32] [100]] in
+  let ps0 := walker_state default_ctx in
   ok_doc default_ctx {| d_items := l1 ++ l2; d_trail := [] |} = true /\
-  (exists e, parse_top (unparse_items l1 ++ open_text OBrace ++ unparse_items l2) false default_ctx
-                       (walker_state default_ctx) = PErr e 13 /\ pe_pos e = Some 3%nat /\ pe_what e = 6%nat) /\
-  ok_items default_ctx (ps_enter_math (walker_state default_ctx) (Some (m_open MParen))) l2 None = false /\
+  (exists e, parse_top (unparse_items l1 ++ open_text OBrace ++ unparse_items l2) false default_ctx ps0
+             = PErr e 13 /\ pe_pos e = Some 3%nat /\ pe_what e = 6%nat) /\
+  (open_state default_ctx ps0 (OBegin [122;113]) = ps0 /\ envname_ok [122;113] = true /\
+   (exists sp, get_env_spec default_ctx [122;113] = Some sp /\ sp_args sp = APStd [])) /\
+  (exists e, parse_top (unparse_items l1 ++ open_text (OBegin [122;113]) ++ unparse_items l2) false default_ctx ps0
+             = PErr e 22 /\ pe_pos e = Some 12%nat /\ pe_what e = 6%nat) /\
+  ok_items default_ctx (ps_enter_math ps0 (Some (m_open MParen))) l2 None = false /\
   ok_doc default_ctx {| d_items := l1 ++ l2'; d_trail := [] |} = true /\
-  ok_items default_ctx (ps_enter_math (walker_state default_ctx) (Some (m_open MParen))) l2' None = true /\
-  (exists e, parse_top (unparse_items l1 ++ open_text (OMath MParen) ++ unparse_items l2') false default_ctx
-                       (walker_state default_ctx) = PErr e 10 /\ pe_pos e = Some 4%nat /\ pe_what e = 6%nat).
+  ok_items default_ctx (ps_enter_math ps0 (Some (m_open MParen))) l2' None = true /\
+  (exists e, parse_top (unparse_items l1 ++ open_text (OMath MParen) ++ unparse_items l2') false default_ctx ps0
+             = PErr e 10 /\ pe_pos e = Some 4%nat /\ pe_what e = 6%nat).
 Proof.
-  vm_compute. split; [reflexivity|]. split; [eexists; repeat split|]. split; [reflexivity|].
+  vm_compute. split; [reflexivity|]. split; [eexists; repeat split|].
+  split; [split; [reflexivity|split; [reflexivity|eexists; split; reflexivity]]|].
+  split; [eexists; repeat split|]. split; [reflexivity|].
   split; [reflexivity|]. split; [reflexivity|]. eexists; repeat split.
+Qed.
+
+(** nested: in [a {b c} \(d e\) f] an opening [\(] inserted between [b] and [ c]
+    runs into the group's [}] (offset 8 of the faulted text: unexpected closing
+    brace); an opening [{] or [\begin{zq}] inserted between [d] and [ e] runs into
+    [\)] (unexpected closing math delimiter) *)
+Example C05_fault_opening_nested_nonvacuous :
+  let fg := FGrp [Text [] [97]] [32] [] [Math [32] MParen [Text [] [100]; Text [32] [101]] []; Text [32] [102]] in
+  let fm := FMath [Text [] [97]; Grp [32] [Text [] [98]; Text [32] [99]] []] [32] MParen [] [Text [32] [102]] in
+  let ps0 := walker_state default_ctx in
+  ok_doc default_ctx (zdoc [fg] [Text [] [98]] [Text [32] [99]] []) = true /\
+  unparse (zdoc [fg] [Text [] [98]] [Text [32] [99]] []) = [97;32;123;98;32;99;125;32;92;40;100;32;101;92;41;32;102] /\
+  unparse (zdoc [fm] [Text [] [100]] [Text [32] [101]] []) = unparse (zdoc [fg] [Text [] [98]] [Text [32] [99]] []) /\
+  ok_doc default_ctx (zdoc [fm] [Text [] [100]] [Text [32] [101]] []) = true /\
+  (exists e, parse_top (zleft [fg] [Text [] [98]] ++ open_text (OMath MParen) ++ zright [fg] [Text [32] [99]] [])
+                       false default_ctx ps0 = PErr e 9 /\ pe_pos e = Some 8%nat /\ pe_what e = 2%nat) /\
+  (exists e, parse_top (zleft [fm] [Text [] [100]] ++ open_text OBrace ++ zright [fm] [Text [32] [101]] [])
+                       false default_ctx ps0 = PErr e 16 /\ pe_pos e = Some 14%nat /\ pe_what e = 4%nat) /\
+  (exists e, parse_top (zleft [fm] [Text [] [100]] ++ open_text (OBegin [122;113]) ++ zright [fm] [Text [32] [101]] [])
+                       false default_ctx ps0 = PErr e 25 /\ pe_pos e = Some 23%nat /\ pe_what e = 4%nat).
+Proof.
+  vm_compute. split; [reflexivity|]. split; [reflexivity|]. split; [reflexivity|]. split; [reflexivity|].
+  split; [eexists; repeat split|]. split; [eexists; repeat split|]. eexists; repeat split.
 Qed.
 
 (** [a $b {c {d e} f} g$ h]: a brace inserted between [d] and [ e] closes the
@@ -360,4 +449,6 @@ Print Assumptions C05_zdoc_text.
 Print Assumptions C05_fault_closing_partial.
 Print Assumptions C05_fault_closing_any_suffix_partial.
 Print Assumptions C05_fault_opening_partial.
+Print Assumptions C05_fault_opening_nested_partial.
+Print Assumptions C05_fault_opening_any_suffix_partial.
 Print Assumptions C05_fault_closing_brace_in_groups_partial.
